@@ -404,7 +404,7 @@ func (p *parser) error(msg string, offset, endOffset int) {
 func (p *parser) rune(r rune, opts CharsetOptions) charset {
 	p.set = append(p.set[:0], r, r)
 	cs := charset(p.set)
-	if opts.Fold {
+	if opts.Fold && foldable(r, opts) {
 		cs.fold(opts.ScanBytes)
 	}
 	return cs
